@@ -1,9 +1,10 @@
-"""Citation-kind alphabet: 23 letters, each a snippet from which the real extractor builds the object."""
+"""Citation-kind alphabet: 25 letters, each a snippet from which the real extractor builds the object."""
 
 ALPHA = [
     # name, snippet, class name, index among citations of that class in the snippet
     ("FA", "Alpha v. Beta, 10 U.S. 100 (1999).", "FullCaseCitation", 0),
     ("FA2", "Alpha v. Beta, 10 U. S. 100, 105 (1999) (same case, variant spelling).", "FullCaseCitation", 0),
+    ("FA0", "See 10 U.S. 100 (1999).", "FullCaseCitation", 0),  # case A again, cited without party names
     ("FB", "Gamma v. Delta, 10 U.S. 200 (2001).", "FullCaseCitation", 0),  # same reporter+volume as A
     ("FC", "Alpha v. Omega, 30 F.2d 300 (1950).", "FullCaseCitation", 0),  # shares a party name with A
     ("FP", "Sigma v. Tau, 585 U.S. ___ (2018).", "FullCaseCitation", 0),  # placeholder page
@@ -16,6 +17,7 @@ ALPHA = [
     ("S_C", "30 F.2d at 301.", "ShortCaseCitation", 0),  # unique to C
     ("S_for", "77 F.3d at 5.", "ShortCaseCitation", 0),  # foreign
     ("S_Cr", "10 Cranch, at 55.", "ShortCaseCitation", 0),  # another ambiguous reporter string, same volume as FH
+    ("S_P", "585 U.S., at 5.", "ShortCaseCitation", 0),  # short form of the placeholder-page case P
     ("SU_B", "Delta, supra, at 201.", "SupraCitation", 0),  # unique name -> B
     ("SU_amb", "Alpha, supra, at 5.", "SupraCitation", 0),  # A and C share Alpha
     ("SU_unk", "Zeta, supra.", "SupraCitation", 0),
